@@ -18,7 +18,7 @@ def wrap(text, width=116, indent="  "):
 
 def findings():
     out = ["## 8. Genuine defects found in snower/slock (fixed / recorded)\n"]
-    fixes = subprocess.check_output(["git", "-C", "/repo", "log", "--oneline"]).decode().splitlines()
+    fixes = subprocess.check_output(["git", "-C", os.environ.get("VERIF_REPO", "/repo"), "log", "--oneline"]).decode().splitlines()
     fixes = [l for l in fixes if " fix:" in l]
     entries = []
     for f in sorted(glob.glob(os.path.join(V, "known_findings", "*.json"))):
@@ -87,7 +87,7 @@ def numbers():
         for f in files:
             if f.endswith(".v"):
                 loc += sum(1 for _ in open(os.path.join(root, f), errors="replace"))
-    fixes = [l for l in subprocess.check_output(["git", "-C", "/repo", "log", "--oneline"]).decode().splitlines() if " fix:" in l]
+    fixes = [l for l in subprocess.check_output(["git", "-C", os.environ.get("VERIF_REPO", "/repo"), "log", "--oneline"]).decode().splitlines() if " fix:" in l]
     nk = nf = 0
     for f in g.glob(os.path.join(V, "known_findings", "*.json")):
         d = json.load(open(f))
